@@ -314,3 +314,10 @@ def run(ctx: core.Ctx) -> None:
         trace_validation(ctx, n_inst=4, nobj=6, length=30, clauses=OWN_CLAUSES)
     else:
         trace_validation(ctx, n_inst=16, nobj=20, length=40, clauses=OWN_CLAUSES)
+
+    # per-call statement of the property under concurrent use (Reentrant.tla): the same calls from several threads at once
+    from ..drivers import threads  # noqa: PLC0415
+
+    threads.clause(ctx, ['reservoirs'])
+
+
